@@ -1,12 +1,230 @@
-use crate::util::Report;
-use crate::Ctx;
-use serde_json::Value;
+//! C18 — the repair stream is addressed consistently (fountain property).
 
-pub fn run(_ctx: &Ctx, _rep: &mut Report) {
-    eprintln!("not implemented yet");
-    std::process::exit(2);
+use crate::codec::{build_block, build_from, block_cfg, make_data, symbols_of, DataClass};
+use crate::reference as rf;
+use crate::util::{fnv_u64s, run_sharded, Report, SplitMix, Stats};
+use crate::Ctx;
+use proptest::prelude::*;
+use raptorq::{Encoder, ObjectTransmissionInformation, SourceBlockEncoder, SourceBlockEncodingPlan};
+use serde_json::{json, Value};
+use std::collections::HashSet;
+
+#[derive(Debug, Clone)]
+pub struct Case {
+    k: u32,
+    t: usize,
+    s1: u32,
+    n1: u32,
+    /// second window start offset relative to s1 (may overlap) and length
+    d2: i64,
+    n2: u32,
+    build: u64,
+    seed: u64,
+    z: usize,
+    repair_per_block: u32,
 }
 
-pub fn replay(_sub: &str, _case: &Value) -> Result<(), String> {
-    Err("not implemented".into())
+fn strategy(kmax: u32) -> impl Strategy<Value = Case> {
+    (
+        prop_oneof![3 => 1u32..=60, 2 => 1u32..=kmax, 1 => Just(10u32), 1 => Just(11u32)],
+        prop_oneof![1usize..=8, 1usize..=40],
+        any::<u64>(),
+        0u32..=40,
+        -40i64..=40,
+        0u32..=40,
+        0u64..6,
+        any::<u64>(),
+        1usize..=5,
+        0u32..=6,
+        0u8..4,
+    )
+        .prop_map(|(k, t, r, n1, d2, n2, build, seed, z, rpb, smode)| {
+            let max_start = (1u32 << 24) - k; // K + s + n <= 2^24
+            let s1 = match smode {
+                0 => (r % 51) as u32,
+                1 => (r % (max_start as u64 + 1)) as u32,
+                2 => max_start.saturating_sub(n1 + (r % 3) as u32),
+                _ => (r % 5000) as u32,
+            }
+            .min(max_start - n1.min(max_start));
+            Case { k, t, s1, n1, d2, n2, build, seed, z, repair_per_block: rpb }
+        })
+}
+
+fn check(c: &Case, st: &mut Stats) -> Result<(), String> {
+    let k = c.k;
+    let pr = rf::params(k);
+    let data = make_data(DataClass::Random, c.seed, k as usize * c.t);
+    let cfg = block_cfg(k as usize, c.t);
+    let sbn = (c.seed % 256) as u8;
+    let how = build_from(c.build);
+    let enc = build_block(how, sbn, &cfg, &data);
+    let max_start = (1u32 << 24) - k;
+    let s1 = c.s1.min(max_start);
+    let n1 = c.n1.min(max_start - s1);
+    let s2 = (s1 as i64 + c.d2).clamp(0, max_start as i64) as u32;
+    let n2 = c.n2.min(max_start - s2);
+    let overlap = s2 < s1 + n1 && s1 < s2 + n2 && n1 > 0 && n2 > 0;
+    st.class_if(overlap, "overlapping windows");
+    st.class_if(k < pr.kp, "padding symbols present");
+    st.class_if(s1 + n1 == max_start && n1 > 0, "window ends at ESI 2^24-1");
+    st.class_if(s1 > 1 << 20, "far window");
+    if overlap && s1 > 0 && k < pr.kp {
+        st.nt(fnv_u64s(&[k as u64, c.t as u64, s1 as u64, n1 as u64, s2 as u64, n2 as u64]));
+    }
+    st.sample(|| json!({"K": k, "T": c.t, "window1": [s1, n1], "window2": [s2, n2], "build": format!("{how:?}"), "Z": c.z}));
+
+    let w1 = enc.repair_packets(s1, n1);
+    if w1.len() != n1 as usize {
+        return Err(format!("repair_packets({s1}, {n1}) returned {} packets", w1.len()));
+    }
+    let cc = enc.verif_intermediate_symbols();
+    for (i, p) in w1.iter().enumerate() {
+        let esi = k + s1 + i as u32;
+        if p.payload_id().encoding_symbol_id() != esi || p.payload_id().source_block_number() != sbn {
+            return Err(format!(
+                "K={k}: packet {i} of window ({s1},{n1}) has id (SBN {}, ESI {}), expected (SBN {sbn}, ESI {esi})",
+                p.payload_id().source_block_number(),
+                p.payload_id().encoding_symbol_id()
+            ));
+        }
+        if p.data().len() != c.t {
+            return Err(format!("repair payload length {} != T={}", p.data().len(), c.t));
+        }
+        let single = enc.repair_packets(s1 + i as u32, 1);
+        if single.len() != 1 || single[0] != *p {
+            return Err(format!("K={k} T={} {how:?}: window ({s1},{n1}) packet {i} differs from the single-packet request at repair index {}", c.t, s1 + i as u32));
+        }
+        // tie to the RFC symbol (uses the crate's own intermediate symbols; C04 certifies those)
+        let isi = esi + (pr.kp - k);
+        if p.data() != &rf::enc(&pr, &cc, isi)[..] {
+            return Err(format!("K={k} T={} {how:?}: repair ESI {esi} is not Enc[K', C, Tuple[K', {isi}]]", c.t));
+        }
+    }
+    // overlapping windows agree
+    let w2 = enc.repair_packets(s2, n2);
+    if w2.len() != n2 as usize {
+        return Err(format!("repair_packets({s2}, {n2}) returned {} packets", w2.len()));
+    }
+    for (j, q) in w2.iter().enumerate() {
+        let idx = s2 + j as u32;
+        if idx >= s1 && idx < s1 + n1 && *q != w1[(idx - s1) as usize] {
+            return Err(format!("K={k} {how:?}: windows ({s1},{n1}) and ({s2},{n2}) disagree at repair index {idx}"));
+        }
+    }
+    // plans for equal block sizes are interchangeable
+    let plan1 = SourceBlockEncodingPlan::generate(k as u16);
+    let plan2 = SourceBlockEncodingPlan::generate(k as u16);
+    if plan1 != plan2 {
+        return Err(format!("two plans generated for K={k} are not equal"));
+    }
+    let e1 = SourceBlockEncoder::with_encoding_plan(sbn, &cfg, &data, &plan1);
+    let e2 = SourceBlockEncoder::with_encoding_plan(sbn, &cfg, &data, &plan2);
+    let e3 = SourceBlockEncoder::new(sbn, &cfg, &data);
+    // (== is only demanded between encoders built from equal plans: the physical arrangement
+    // of the intermediate symbols may legitimately differ between matrix back-ends)
+    if e1 != e2 || e1 != e3 {
+        return Err(format!("K={k}: encoders from two generated plans and the cached plan are not all equal"));
+    }
+    for e in [&e1, &e2, &e3] {
+        if e.repair_packets(s1, n1) != w1 || e.source_packets() != enc.source_packets() {
+            return Err(format!("K={k}: encoders from different plan instances ({how:?} vs generated/cached plan) emit different packets"));
+        }
+    }
+    // largest ESI producible
+    let last = enc.repair_packets(max_start - 1, 1);
+    if last.len() != 1 || last[0].payload_id().encoding_symbol_id() != (1 << 24) - 1 {
+        return Err(format!("K={k}: ESI 2^24-1 not producible"));
+    }
+    st.class("ESI 2^24-1 produced");
+
+    // per-object packet list
+    if c.z >= 1 && k <= 80 {
+        let z = c.z.min(k as usize);
+        let mut rng = SplitMix::new(c.seed ^ 0xF00D);
+        let extra = rng.below(c.t as u64) as usize;
+        let f = (k as usize * c.t).saturating_sub(extra).max(1);
+        let obj = make_data(DataClass::Random, c.seed ^ 1, f);
+        let ocfg = ObjectTransmissionInformation::new(f as u64, c.t as u16, z as u8, 1, 1);
+        let oenc = Encoder::new(&obj, ocfg);
+        let r = c.repair_per_block;
+        let pk = oenc.get_encoded_packets(r);
+        let layout = rf::object_layout(&obj, c.t, z, 1, 1);
+        let mut idx = 0usize;
+        let mut ids = HashSet::new();
+        for (zi, blk) in layout.iter().enumerate() {
+            let kk = blk.len() as u32;
+            for e in 0..kk + r {
+                let p = pk.get(idx).ok_or_else(|| format!("packet list too short ({} packets)", pk.len()))?;
+                idx += 1;
+                if p.payload_id().source_block_number() as usize != zi || p.payload_id().encoding_symbol_id() != e {
+                    return Err(format!(
+                        "object packet list (Z={z}, r={r}): position {idx} has (SBN {}, ESI {}), expected (SBN {zi}, ESI {e})",
+                        p.payload_id().source_block_number(),
+                        p.payload_id().encoding_symbol_id()
+                    ));
+                }
+                if p.data().len() != c.t {
+                    return Err("payload length != T in the object packet list".into());
+                }
+                if e < kk && p.data() != &blk[e as usize][..] {
+                    return Err(format!("object packet list: (SBN {zi}, ESI {e}) does not carry the source symbol"));
+                }
+                if !ids.insert((zi, e)) {
+                    return Err("duplicate payload ID in the object packet list".into());
+                }
+            }
+            // repair part equals the block encoder's own window (0, r)
+            let be = &oenc.get_block_encoders()[zi];
+            let win = be.repair_packets(0, r);
+            if pk[idx - r as usize..idx] != win[..] {
+                return Err(format!("object packet list: repair packets of block {zi} differ from repair_packets(0, {r})"));
+            }
+        }
+        if idx != pk.len() {
+            return Err(format!("object packet list has {} packets, expected {idx}", pk.len()));
+        }
+        st.class_if(z > 1, "object with Z>1");
+        let _ = symbols_of;
+    }
+    Ok(())
+}
+
+fn to_json(c: &Case) -> Value {
+    json!({"k": c.k, "t": c.t, "s1": c.s1, "n1": c.n1, "d2": c.d2, "n2": c.n2, "build": c.build, "seed": c.seed, "z": c.z, "rpb": c.repair_per_block})
+}
+
+fn from_json(v: &Value) -> Case {
+    let g = |k: &str| v[k].as_u64().unwrap();
+    Case { k: g("k") as u32, t: g("t") as usize, s1: g("s1") as u32, n1: g("n1") as u32, d2: v["d2"].as_i64().unwrap(), n2: g("n2") as u32, build: g("build"), seed: g("seed"), z: g("z") as usize, repair_per_block: g("rpb") as u32 }
+}
+
+fn signature(_: &Case, msg: &str) -> String {
+    let kind = if msg.contains("panic") {
+        "panic"
+    } else if msg.contains("single-packet") {
+        "window-vs-single"
+    } else if msg.contains("disagree") {
+        "overlap"
+    } else if msg.contains("has id") || msg.contains("position") {
+        "ids"
+    } else if msg.contains("plan") {
+        "plans"
+    } else if msg.contains("Enc[") {
+        "rfc-symbol"
+    } else {
+        "other"
+    };
+    format!("repair:{kind}")
+}
+
+pub fn run(ctx: &Ctx, rep: &mut Report) {
+    rep.rule = "generated (K <= 300 quick / 5000 thorough, T <= 40, construction, window (s1,n1) from {0..50} / uniform up to 2^24-K / ending exactly at ESI 2^24-1, second window at offset -40..40, n <= 40, object with Z <= 5 blocks and r <= 6 repair packets per block). Oracle (metamorphic + structural): window == concatenation of single-packet requests; overlapping windows agree; payload IDs are (block, K+s+i); each repair payload equals the reference Enc over the encoder's intermediate symbols; encoders from two generated plans, the cached plan and the generated construction are == and emit identical packets; get_encoded_packets(r) is, block by block, ESI 0..K-1 then K..K+r-1 with distinct IDs, payload length T and source payloads per the reference layout; ESI 2^24-1 is producible. Non-trivial = overlapping windows with s > 0 on a block with padding; distinct by (K,T,windows).".into();
+    let kmax = ctx.tier.pick(300u32, 5000);
+    let n = ctx.tier.pick(6_000u64, 150_000);
+    rep.absorb("windows", run_sharded("C18", "windows", ctx.seed, n, 32, move || strategy(kmax), check, to_json, signature));
+}
+
+pub fn replay(_sub: &str, case: &Value) -> Result<(), String> {
+    check(&from_json(case), &mut Stats::new())
 }
